@@ -183,6 +183,7 @@ def run_C17(ctx, R):
     _per_config(ctx, R, lambda units, r: cmpfold.cmp1(units, r, unit_names=('cJSON_Utils.c',)))
     _scoped(ctx, R, out.out7, C17_ENTRIES, 3)
     _per_config(ctx, R, utilsx.gen1)
+    _per_config(ctx, R, utilsx.gen2)
     _per_config(ctx, R, utilsx.dig1)
     from .rules import tree
     _scoped(ctx, R, tree.tab3, C17_ENTRIES, 4)
@@ -780,7 +781,9 @@ PROPERTIES = {
             "same key that is encoded and the key appended exactly where the text so far ends. GEN1: no branch of the recursive generator whose condition is computed from neither document (and "
             "is not the NULL test of a fresh allocation) has an edge on which the generator can only leave without emitting while its "
             "other edge can emit - a depth budget, flag or counter must not decide whether differences are reported (edges settled by "
-            "the range of an unsigned type are dead). ESC1: member names reach pointer "
+            "the range of an unsigned type are dead). GEN2: a loop that emits one indexed \"remove\" per leftover element while walking forwards does not "
+            "step the printed counter forward (each removal shifts the next leftover element to the same index), and a loop that emits one "
+            "indexed \"add\" per new element steps the counter and prints the index again on every iteration (\"-\" needs no index). ESC1: member names reach pointer "
             "text only through the encoder (not as a %s argument or a verbatim-copied helper parameter). TAB9/OUT5: escape tables "
             "and gap-free encoding. LST1+LST5: sort_object (run on both inputs) restores the tail link and sort_list "
             "stores only next/prev and calls only itself and the comparator, so inputs are merely re-linked. TAB11: "
